@@ -564,12 +564,7 @@ package ast
 //@ ghost var $filedNegA array[Ref]bool
 //@ macro func filedStable() bool { return (forall x *Expression :: $filedE[x] ==> x.Negated == $filedNegE[x]) && (forall a *ExpressionAtom :: $filedA[a] ==> a.Negated == $filedNegA[a]) }
 // one node per distinct snapshot text (C07 layer 1, C13): an existing resident with an equal snapshot is returned, else the argument is filed
-//@ extern func (e *ExpressionAtom) GetSnapshot() (s)
-//@   isfunc
-//@   nopanic
-//@ extern func (e *Variable) GetSnapshot() (s)
-//@   isfunc
-//@   nopanic
+// The snapshot formats are pinned below (section C07); A-STABLE: a snapshot is a function of the node.
 //@ extern pure func fn_GetSnapshot_0(n Ref) string
 //@ func (workingMem *WorkingMemory) AddExpression(exp) (r)
 //@   serves C07 C13
@@ -1312,6 +1307,7 @@ package ast
 //@   ints bv
 //@   requires e != nil
 //@   nopanic
+//@   trusted_ensures s == fn_GetSnapshot_0(e)
 //@   ensures[C07] format: s == "C(" + kind_name(e.Value.kind) + "->" + constPiece(e.Value) + ")"
 // two constants of the same kind with the same printed piece have the same value: digits beyond the 6th decimal, quotes and
 // brackets inside strings, sign and exponent all reach the snapshot
@@ -1323,17 +1319,65 @@ package ast
 //@ macro func opSym(op int) string { return ite(op == OpMul, "*", ite(op == OpDiv, "/", ite(op == OpMod, "%", ite(op == OpAdd, "+", ite(op == OpSub, "-", ite(op == OpBitAnd, "&", ite(op == OpBitOr, "|",
 //@      ite(op == OpGT, ">", ite(op == OpLT, "<", ite(op == OpGTE, ">=", ite(op == OpLTE, "<=", ite(op == OpEq, "==", ite(op == OpNEq, "!=", ite(op == OpAnd, "&&", ite(op == OpOr, "||", ""))))))))))))))) }
 // The builder's value is followed through the joins as an ite-tree (opt strite), so the format is checked without a string
-// theory. A-STABLE (trusted_ensures): a node's snapshot is a function of the node - the fields that feed it are final when
+// theory. The snapshot functions dereference their children unguarded: that they do not panic is A-TREE (trusted_nopanic:
+// nodes below a filed node are non-nil where the grammar makes them so), not checked. A-STABLE (trusted_ensures): a node's snapshot is a function of the node - the fields that feed it are final when
 // it is first taken (the listener's filing discipline, checked in package antlr, covers the negation flags).
 //@ func (e *Expression) GetSnapshot() (s)
 //@   serves C07
 //@   opt strite=1
-//@   requires e != nil
-//@   nopanic
+//@   trusted_nopanic
 //@   modifies
 //@   trusted_ensures s == fn_GetSnapshot_0(e)
 //@   checks[C07] format: s == "E(" + ite(e.SingleExpression != nil, "SE(" + ite(e.Negated, "!", "") + fn_GetSnapshot_0(e.SingleExpression) + ")", "")
 //@        + ite(e.LeftExpression != nil && e.RightExpression != nil, "EL(" + fn_GetSnapshot_0(e.LeftExpression) + ")" + opSym(e.Operator) + "ER(" + fn_GetSnapshot_0(e.RightExpression) + ")", "")
 //@        + ite(e.ExpressionAtom != nil, "EA(" + fn_GetSnapshot_0(e.ExpressionAtom) + ")", "") + ")"
+//@ func (e *ExpressionAtom) GetSnapshot() (s)
+//@   serves C07
+//@   opt strite=1
+//@   trusted_nopanic
+//@   modifies
+//@   trusted_ensures s == fn_GetSnapshot_0(e)
+//@   checks[C07] format: s == "A(" + ite(e.Variable != nil, fn_GetSnapshot_0(e.Variable), ite(e.Constant != nil, fn_GetSnapshot_0(e.Constant),
+//@        ite(e.FunctionCall != nil && e.ExpressionAtom == nil, fn_GetSnapshot_0(e.FunctionCall),
+//@        ite(e.FunctionCall == nil && e.ExpressionAtom != nil && len(e.VariableName) == 0, ite(e.Negated, "!", "") + fn_GetSnapshot_0(e.ExpressionAtom),
+//@        ite(e.FunctionCall != nil && e.ExpressionAtom != nil, fn_GetSnapshot_0(e.ExpressionAtom) + "->" + fn_GetSnapshot_0(e.FunctionCall),
+//@        ite(len(e.VariableName) > 0 && e.ExpressionAtom != nil, fn_GetSnapshot_0(e.ExpressionAtom) + "->MV:" + e.VariableName, ""))))))
+//@        + ite(e.ArrayMapSelector != nil && e.ExpressionAtom != nil, fn_GetSnapshot_0(e.ExpressionAtom) + "-[]>" + fn_GetSnapshot_0(e.ArrayMapSelector), "") + ")"
+//@ func (e *Variable) GetSnapshot() (s)
+//@   serves C07
+//@   opt strite=1
+//@   trusted_nopanic
+//@   modifies
+//@   trusted_ensures s == fn_GetSnapshot_0(e)
+//@   checks[C07] format: s == "V(" + ite(len(e.Name) > 0 && e.Variable == nil, "N:" + e.Name, ite(e.Variable != nil && len(e.Name) > 0, "O:" + fn_GetSnapshot_0(e.Variable) + "->" + e.Name,
+//@        ite(e.Variable != nil && e.ArrayMapSelector != nil, "O:" + fn_GetSnapshot_0(e.Variable) + "->" + fn_GetSnapshot_0(e.ArrayMapSelector), ""))) + ")"
+//@ func (e *FunctionCall) GetSnapshot() (s)
+//@   serves C07
+//@   opt strite=1
+//@   trusted_nopanic
+//@   modifies
+//@   trusted_ensures s == fn_GetSnapshot_0(e)
+//@   checks[C07] format: s == "F(n:" + e.FunctionName + ite(e.ArgumentList != nil, "," + fn_GetSnapshot_0(e.ArgumentList), "") + ")"
+//@ func (e *ArrayMapSelector) GetSnapshot() (s)
+//@   serves C07
+//@   opt strite=1
+//@   trusted_nopanic
+//@   modifies
+//@   trusted_ensures s == fn_GetSnapshot_0(e)
+//@   checks[C07] format: s == "MAS(" + ite(e.Expression != nil, fn_GetSnapshot_0(e.Expression), "") + ")"
+// argument snapshots joined by "," (alSnap: the documented join, defined by its three unfolding equations)
+//@ extern pure func alSnap(args []*Expression, n int) string
+//@ axiom od_alsnap0: forall a []*Expression {alSnap(a, 0)} :: alSnap(a, 0) == ""
+//@ axiom od_alsnap1: forall a []*Expression {alSnap(a, 1)} :: alSnap(a, 1) == fn_GetSnapshot_0(a[0])
+//@ axiom od_alsnapN: forall a []*Expression, n int {alSnap(a, n)} :: n >= 2 ==> alSnap(a, n) == alSnap(a, n - 1) + "," + fn_GetSnapshot_0(a[n - 1])
+//@ func (e *ArgumentList) GetSnapshot() (s)
+//@   serves C07
+//@   opt strite=1
+//@   opt axioms=od_alsnap0,od_alsnap1,od_alsnapN
+//@   trusted_nopanic
+//@   modifies
+//@   trusted_ensures s == fn_GetSnapshot_0(e)
+//@   invariant@1[C07] acc: buff == "AL(" + alSnap(e.Arguments, $i)
+//@   checks[C07] format: s == "AL(" + alSnap(e.Arguments, len(e.Arguments)) + ")"
 // the 15 operator spellings are pairwise different and none is a prefix of "ER(" (LL(1) disjointness, ground)
 //@ lemma[C07] opsym_injective: forall a int, b int :: 0 <= a && a <= 14 && 0 <= b && b <= 14 && opSym(a) == opSym(b) ==> a == b
